@@ -47,7 +47,7 @@ COMPOUTS = {'compAddBcast', 'compDeleteBcast', 'compUpdateBcast', 'compAddResp',
 
 PROPS = {
     'C02': dict(modules=['Hagall.Props.C02'], profiles=['mixed', 'join', 'module', 'custom', 'pose'], n=(240, 4000),
-                tools=['drive', 'extract', 'wire'], extra=['wire_harness'],
+                tools=['drive', 'extract', 'wire'], extra=['wire_harness', 'conc_explore'],
                 focus={'join', 'entityAdd', 'entityDelete', 'updatePose', 'custom', 'action', 'assetAdd'},
                 topics=slice_of(['join', 'entityAdd', 'entityDelete', 'updatePose', 'custom', 'action', 'assetAdd', 'disconnect'],
                                 relay_only=True, outs=RELAYS)),
@@ -62,10 +62,10 @@ PROPS = {
                 focus={'join', 'entityAdd', 'compAdd', 'action', 'assetAdd'},
                 topics=slice_of(['disconnect', 'join', 'receipt'], kinds=['outcome'],
                                 outs={'leaveBcast', 'entityDeleteBcast', 'sessionState', 'vikjaState', 'odalState'})),
-    'C07': dict(modules=['Hagall.Props.C07'], profiles=['join', 'mixed'], n=(240, 4000), focus={'join'}, tools=['drive', 'extract', 'wire'], extra=['wire_harness'],
+    'C07': dict(modules=['Hagall.Props.C07'], profiles=['join', 'mixed'], n=(240, 4000), focus={'join'}, tools=['drive', 'extract', 'wire'], extra=['wire_harness', 'conc_explore'],
                 topics=slice_of(['join', 'disconnect'], kinds=['state', 'gauge'], outs={'joinResp', 'error'})),
     'C10': dict(modules=['Hagall.Props.C10'], profiles=['join', 'mixed', 'comp', 'module'], n=(240, 4000), focus={'join', 'entityAdd', 'typeAdd', 'assetAdd'},
-                tools=['drive', 'extract', 'wire'], extra=['wire_harness'],
+                tools=['drive', 'extract', 'wire'], extra=['wire_harness', 'conc_explore'],
                 topics=slice_of(['join', 'entityAdd', 'typeAdd', 'typeGetName', 'typeGetId', 'assetAdd'], kinds=['state'], answer_only=True,
                                 outs={'joinResp', 'entityAddResp', 'typeAddResp', 'typeNameResp', 'typeIdResp', 'assetAddResp'})),
     'C12': dict(modules=['Hagall.Props.C12'], profiles=['comp', 'mixed'], n=(240, 4000), focus=set(COMP) | {'entityDelete'},
@@ -105,6 +105,7 @@ PROPS['C03'] = dict(modules=['Hagall.Props.C03'], profiles=['join', 'mixed', 'mo
                                     or bool(d['outs'] & {'sessionState', 'vikjaState', 'odalState'})))
 
 PROPS['C01'] = dict(modules=['Hagall.Props.C01'], profiles=['mixed', 'comp', 'module', 'pose', 'join'], n=(300, 5000), focus={'join', 'entityAdd', 'compAdd', 'action', 'assetAdd'},
+                    extra=['conc_explore'],
                     gen_args=['-flags', '-'],
                     topics=slice_of(ALL_TOPICS + ['disconnect'], outs=RELAYS | {'sessionState', 'vikjaState', 'odalState', 'compAddBcast', 'compDeleteBcast', 'compUpdateBcast'}))
 
@@ -114,7 +115,7 @@ PROPS['C08'] = dict(modules=['Hagall.Props.C08'], profiles=['malformed', 'mixed'
                     trusted=['go/cmd/wire (wire-level scenarios, end-state observers)', 'timing: scenario time limits are generous multiples of the configured idle timeout'])
 
 PROPS['C09'] = dict(modules=['Hagall.Props.C09'], profiles=['mixed'], n=(40, 400), focus=None,
-                    tools=['drive', 'extract', 'wire-race'], extra=['race_harness'], topics=slice_of([], kinds=[]),
+                    tools=['drive', 'extract', 'wire-race'], extra=['race_harness', 'conc_explore'], topics=slice_of([], kinds=[]),
                     trusted=['the Go race detector (happens-before, dynamic: reports only races that the executions exhibit)',
                              'go/cmd/wire scenario concurrent (randomised real-thread executions, completion watchdog)'])
 
